@@ -77,6 +77,8 @@ def prop_scopes(name, tier):
     elif name == "lexicographic_leq":
         for p in ((1, 2, 3) if big else (1, 2)):
             yield 2 * p, [], (0, 2 if p < 3 else 1)
+        yield 6, [], (0, 1)
+        yield 8, [], (0, 1)  # the automaton's look-ahead states need vectors of length >= 4
     elif name in ("affine_eq", "affine_geq", "affine_leq"):
         for n in (1, 2, 3) if big else (1, 2):
             for coefs in itertools.product((-2, -1, 0, 1, 2), repeat=n):
